@@ -148,6 +148,14 @@ def corpus(tier, seed):
         for chunks in ([1], [2, 3], [len(b) or 1], [16]):
             msgs.append(dict(kind="HTTP/1.1", code=200, reason="OK", headers=[ctype], framing="chunked", body=b, chunks=chunks))
     msgs.append(dict(kind="HTTP/1.1", code=200, reason="OK", headers=[], framing="chunked", te_name="transfer-encoding", body=b"A" * 26, chunks=[10, 16], upper_hex=True))
+    # spellings the grammar allows and lazy parsers forget: upper-case hex digits in chunk sizes, no blank / a tab / several blanks behind the colon
+    # of a header, a header with an empty value
+    for sizes_ in ([26], [27, 59, 95], [171, 10]):
+        msgs.append(dict(kind="HTTP/1.1", code=200, reason="OK", headers=[ctype], framing="chunked", body=bytes(range(65, 91)) * 8, chunks=sizes_, upper_hex=True))
+        msgs.append(dict(kind="EVENT/1.0", code=200, reason="OK", headers=[ctype], framing="chunked", body=bytes(range(65, 91)) * 8, chunks=sizes_))
+    for sep_ in ("", "\t", "   "):
+        msgs.append(dict(kind="HTTP/1.1", code=200, reason="OK", headers=[ctype, ("X-Empty", "")], framing="cl", sep=sep_, body=b'{"a":1}'))
+        msgs.append(dict(kind="EVENT/1.0", code=200, reason="OK", headers=[("X-Time", "12: 30"), ctype], framing="chunked", sep=sep_, body=b'{"a":1}', chunks=[3]))
     msgs.append(dict(kind="HTTP/1.1", code=200, reason="OK", headers=[], framing="chunked", body=b"", chunks=[1]))
     msgs.append(dict(kind="EVENT/1.0", code=200, reason="OK", headers=[ctype], framing="chunked", body=BODIES[2], chunks=[7]))
     singles = [[m] for m in msgs]
@@ -164,6 +172,8 @@ def corpus(tier, seed):
         # chunked messages whose chunks are much longer than the 5-byte terminator (state kept across reads inside a chunk must not outlive it)
         big_chunks = [m for m in msgs if m["framing"] == "chunked" and len(m.get("body", b"")) >= 26 and max(m["chunks"]) >= 10]
         seqs += [[m] for m in big_chunks[:3]] + [[big_chunks[0], reps[1]]]
+        variants = [m for m in msgs if any(k_ in m for k_ in ("upper_hex", "sep", "cl_name", "te_name"))]
+        seqs += [[m] for m in variants if len(render(m)[0]) <= 400] + [[variants[0], reps[1]], [variants[-1], variants[1]]]
     else:
         seqs = singles + pairs + triples
         seqs = [s for s in seqs if sum(len(render(m)[0]) for m in s) <= 260]
